@@ -15,6 +15,7 @@ LEAN_MODULES = ["JSV.Props.C14"]
 RULE = ("generated documents of both drafts (map-valued keywords with >= 2 entries favoured) and reference universes with a caching "
         "Loader (the same *Schema is returned for a URI every time); per op: Resolve 3 times on the same Schema object, every instance "
         "validated against each new Resolved and against the first one again, Marshal each round (Go re-randomises every map range); "
+        "Schema values built in Go whose name lists (Required, DependentRequired) repeat a name, adjacently or apart; "
         "observed directly: verdict vectors and bytes identical across rounds, schema / instances / loaded documents DeepEqual to "
         "untouched twins; the first 300 ops are re-run in a second process (new hash seeds) and compared; verdicts = model. "
         "Non-trivial: >= 3 keywords; distinct = operation text")
@@ -47,8 +48,13 @@ def gen(rng, tier, n):
                 order = [rng.choice(props + ["zz", "q", "stale", "gone"]) for _ in range(rng.randint(0, 6))]
                 order = list(dict.fromkeys(order))
                 desc = c19.mk(props, order, rng.choice(props) if props and rng.random() < 0.3 else None)
+                if props and rng.random() < 0.5:
+                    # required names as a Go program collects them: a name may be listed twice (next to each other or apart)
+                    req = gsv._with_repeats(rng, rng.sample(props, rng.randint(1, len(props))))
+                    desc["nodes"][rng.randrange(len(desc["nodes"]))]["Required"] = req
             else:
-                desc, _ = gsv.gen_desc(rng, fields, depth=2, big_int_p=0)
+                # name lists (Required, DependentRequired / DependencyStrings values) with repeated names, adjacent or apart, in 40 % of them
+                desc, _ = gsv.gen_desc(rng, fields, depth=2, big_int_p=0, dup_p=0.4 if rng.random() < 0.6 else 0.0)
             ops.append({"op": "marshal", "args": {"desc": desc, "insts": [gs.gen_instance(rng, 2) for _ in range(2)]}, "meta": {"kw": 3, "marshal": True}})
             continue
         if r0 < 0.31:
